@@ -17,6 +17,7 @@ import (
 	"fmt"
 	"net/netip"
 	"strings"
+	"sync"
 	"testing"
 	"time"
 
@@ -90,6 +91,10 @@ func c31Cid(r *vu.Rng) []byte {
 }
 
 func c31Gen(r *vu.Rng, i int) []string {
+	if r.Chance(1, 300) {
+		// concurrent use of one generator: goroutines x iterations over a set of connection IDs
+		return []string{fmt.Sprintf("resetconc %s %d %d %d", vu.Hex(r.Bytes(32)), r.Range(1, 8), r.Range(2, 8), r.Range(500, 3000))}
+	}
 	switch r.Intn(10) {
 	case 0, 1:
 		return []string{fmt.Sprintf("ad %s %s %d", vu.Hex(c31Cid(r)), vu.Hex(c31Addr(r)), r.Intn(65536))}
@@ -277,6 +282,15 @@ func c31Exec1(op string, t []string, o *vu.Out) string {
 		return "ok " + vu.Hex(odcid)
 	case t[0] == "real" && len(t) == 10:
 		return c31Real(op, t, o)
+	case t[0] == "resetconc" && len(t) == 5:
+		key := vu.MustHex(t[1])
+		ncid, ng, iters := vu.Atoi(t[2]), vu.Atoi(t[3]), vu.Atoi(t[4])
+		if len(key) != 32 || ncid < 1 || ncid > 64 || ng < 1 || ng > 64 || iters < 1 || iters > 100000 {
+			return "bad-op"
+		}
+		o.Stat("op:resetconc")
+		c31ResetConcurrent(op, key, ncid, ng, iters, o)
+		return "ok"
 	case t[0] == "reset" && len(t) == 3:
 		key, cid := vu.MustHex(t[1]), vu.MustHex(t[2])
 		if len(key) != 32 {
@@ -320,6 +334,59 @@ func c31Exec1(op string, t []string, o *vu.Out) string {
 		return "ok"
 	}
 	return "bad-op"
+}
+
+// c31ResetConcurrent: tokens are a deterministic function of (key, connection ID) also when
+// several goroutines (connection loops, the endpoint) use one generator at the same time: every
+// result must equal the independent HMAC-SHA256 reference. The verdict on a correct generator
+// does not depend on scheduling (all results are compared with precomputed references).
+func c31ResetConcurrent(op string, key []byte, ncid, ng, iters int, o *vu.Out) {
+	var g statelessResetTokenGenerator
+	g.init([32]byte(key))
+	cids := make([][]byte, ncid)
+	want := make([]statelessResetToken, ncid)
+	for i := range cids {
+		cids[i] = []byte{byte(i), 0xaa, 0xbb, 0xcc, byte(len(cids)), 0xee, 0xff, byte(i * 7)}[:1+i%8]
+		m := hmac.New(sha256.New, key)
+		m.Write(cids[i])
+		copy(want[i][:], m.Sum(nil))
+	}
+	type bad struct {
+		cid      []byte
+		got      statelessResetToken
+		panicked bool
+	}
+	results := make([]*bad, ng)
+	var wg sync.WaitGroup
+	for w := 0; w < ng; w++ {
+		wg.Add(1)
+		go func(w int) {
+			defer wg.Done()
+			defer func() {
+				if recover() != nil && results[w] == nil {
+					results[w] = &bad{panicked: true}
+				}
+			}()
+			for k := 0; k < iters; k++ {
+				i := (w + k) % ncid
+				if got := g.tokenForConnID(cids[i]); got != want[i] && results[w] == nil {
+					results[w] = &bad{cid: cids[i], got: got}
+				}
+			}
+		}(w)
+	}
+	wg.Wait()
+	for w, b := range results { // goroutine order: deterministic report
+		if b == nil {
+			continue
+		}
+		if b.panicked {
+			o.Fail("", fmt.Sprintf("%s: tokenForConnID panics under concurrent use (goroutine %d)", op, w))
+		} else {
+			o.Fail("", fmt.Sprintf("%s: concurrent tokenForConnID(%x) = %x, not HMAC-SHA256(key, cid)[:16]", op, b.cid, b.got[:]))
+		}
+		return
+	}
 }
 
 // c31Real: real AEAD, real makeToken; fixed clock; single-field mutation `mut`:
